@@ -23,7 +23,15 @@ func runC02(e *core.Env) error {
 	for h := 0; h < nHist && !e.OverBudget(); h++ {
 		rr := r.Fork()
 		batch, conc := 1+rr.Intn(5), 1+rr.Intn(3)
-		chain := transferChain(3+rr.Intn(3), uint64(1+rr.Intn(1000)))
+		if h%5 == 3 {
+			batch, conc = 3+rr.Intn(4), 3 // three partitions: a fault on the middle one
+			batch -= batch % 3
+		}
+		clen := 3 + rr.Intn(3)
+		if h%5 == 3 {
+			clen = 8 + rr.Intn(3) // room for three full partitions
+		}
+		chain := transferChain(clen, uint64(1+rr.Intn(1000)))
 		w, err := newWorld(e, chain)
 		if err != nil {
 			return err
@@ -32,7 +40,19 @@ func runC02(e *core.Env) error {
 			w.client = jrpc2.New(w.node.URL()).WithMaxReads(3 + rr.Intn(4)).WithPollDuration(time.Hour)
 			w.tags["caching-client"]++
 		}
-		root := config.Root{Integrations: []config.Integration{transferIG("ig1", "t1", []string{"block_time"}, nil)}}
+		var ig1 config.Integration
+		switch h % 5 {
+		case 1, 2:
+			ig1 = traceIG("ig1", "t1") // blocks + trace_block (h%4==2 is also the caching variant every 20 histories: lcm)
+		case 3:
+			ig1 = transferIG("ig1", "t1", nil, nil) // logs only: no parent hashes in the fetched blocks
+		default:
+			ig1 = transferIG("ig1", "t1", []string{"block_time"}, nil)
+		}
+		if h%4 == 2 && rr.Bool() {
+			ig1 = traceIG("ig1", "t1")
+		}
+		root := config.Root{Integrations: []config.Integration{ig1}}
 		if err := w.setupRoot(&root); err != nil {
 			w.close()
 			return err
